@@ -49,6 +49,9 @@ pub enum Mut {
     /// add `count` fixed-value integer records to the first prototype
     XmlAddRecords { count: u16 },
     XmlDeepNest { depth: u16 },
+    /// a DOCTYPE with an internal entity of `size` bytes (optionally nested `levels` deep) that is referenced `refs`
+    /// times in an attribute value and in element text
+    XmlEntities { size: u16, refs: u16, levels: u8 },
     /// remove everything between the start and end tag of the nth container element
     XmlDeleteChildren { nth: u16 },
     XmlGarbage { at: u16, text: String },
@@ -176,7 +179,9 @@ pub fn gen_script(s: &mut Src) -> Script {
             6 => Mut::XmlMinEqMax { nth: s.below(12) as u16, all: s.flag() },
             7 => Mut::XmlAddRecords { count: *s.pick(&[1u16, 100, 3000, 22000]) },
             8 => {
-                if s.flag() {
+                if s.chance(1, 3) {
+                    Mut::XmlEntities { size: *s.pick(&[1u16, 100, 30000]), refs: *s.pick(&[1u16, 10, 255, 4096]), levels: *s.pick(&[0u8, 1, 5, 9]) }
+                } else if s.flag() {
                     Mut::XmlDeepNest { depth: *s.pick(&[10u16, 200, 5000]) }
                 } else {
                     Mut::XmlDeleteChildren { nth: s.below(12) as u16 }
@@ -497,6 +502,28 @@ fn apply_mut(img: &mut Img, m: &Mut) {
                     add.push_str("</n>");
                 }
                 img.xml.insert_str(p, &add);
+                img.xml_dirty = true;
+            }
+        }
+        Mut::XmlEntities { size, refs, levels } => {
+            let mut dtd = String::from("<!DOCTYPE e57Root [\n");
+            dtd.push_str(&format!("<!ENTITY e0 \"{}\">\n", "A".repeat(*size as usize)));
+            let lv = (*levels as usize).min(12);
+            for k in 1..=lv {
+                dtd.push_str(&format!("<!ENTITY e{k} \"&e{};&e{};\">\n", k - 1, k - 1));
+            }
+            dtd.push_str("]>\n");
+            let reference = format!("&e{lv};").repeat(*refs as usize);
+            // after the XML declaration (if any), in front of the root element
+            if let Some(root) = img.xml.find("<e57Root") {
+                if let Some(gt) = img.xml[root..].find('>') {
+                    let at = root + gt;
+                    let selfclosing = img.xml[..at].ends_with('/');
+                    if !selfclosing {
+                        img.xml.insert_str(at + 1, &format!("<bomb type=\"String\" note=\"{reference}\">{reference}</bomb>"));
+                    }
+                }
+                img.xml.insert_str(root, &dtd);
                 img.xml_dirty = true;
             }
         }
